@@ -38,9 +38,21 @@ TIES = {
                           "signer.Signer.Check", "signer.Signer.CheckHex",
                           "signer.Sessions.New (expiry: lifetime cap)", "signer.Sessions.Check",
                           "signer.TimeSigner.Check", "jwt.CheckTime", "roles.subtleStringEq",
-                          "roles.checkPassCode"]},
+                          "roles.checkPassCode", "jwt.checkHeader", "jwt.CheckClaimSet",
+                          "signer.NewTimeSigner (window)", "signer.NewRSATimeSigner (window)"]},
+    "C08": {"area": "Jsonx", "gen": "Lexing", "refine": "CodeRefine", "cands": "CodeCands",
+            "functions": ["lexing.ErrorList.Add", "lexing.IsDigit/IsLetter/IsHexDigit/IsIdentLetter/IsWhite",
+                          "lexing.lexLineComment", "lexing.lexBlockComment", "lexing.LexRawString",
+                          "lexing.LexIdent", "lexing.LexNumber", "lexing.digitVal", "lexing.lexEscape",
+                          "lexing.LexString"]},
     "C10": {"area": "Caco", "refine": "CodeRefineBuild", "cands": "CodeCandsBuild",
             "functions": ["caco3.sameFileStat"]},
+    "C13": {"area": "Sni", "refine": "CodeRefineWire", "cands": "CodeCandsWire",
+            "functions": ["sniproxy.decoder.read", "sniproxy.decoder.u8", "sniproxy.decoder.u64",
+                          "sniproxy.decoder.bytes", "sniproxy.decoder.str", "sniproxy.decoder.end",
+                          "sniproxy.decoder.hasErr/Err/count/overread/tailError/rest (translated)",
+                          "sniproxy.encoder.write", "sniproxy.encoder.u8", "sniproxy.encoder.u64",
+                          "sniproxy.encoder.bytes", "sniproxy.encoder.str"]},
     "C14": {"area": "Sni", "refine": "CodeRefineHello", "cands": "CodeCandsHello",
             "functions": ["sniproxy.TLSHelloConn.HelloInfo (record-length arithmetic up to recLen)"]},
     "C17": {"area": "Arch", "refine": "CodeRefine", "cands": "CodeCands",
@@ -152,7 +164,7 @@ def run(ck, pid):
     if not ok:
         code_cex(ck, tie["area"], tie["cands"])
     ck.coverage["semantic_tie"] = {"functions": tie["functions"], "proved": ok,
-                                   "files": [props, refine, "theories/Gen/Code%s.v" % tie["area"]]}
+                                   "files": [props, refine, "theories/Gen/Code%s.v" % tie.get("gen", tie["area"])]}
     ck.trusted.append("translator gen/gotrans.go + Lib/GoLib.v: Go body -> Gallina on every run, proved equal to "
                       "the model for all inputs (SEMANTIC_TIE: %s)" % ", ".join(tie["functions"]))
     ck.timings["code_tie"] = round(time.time() - t, 2)
